@@ -262,8 +262,12 @@ for r in req:
                 os.makedirs(os.path.dirname(os.path.join(ind, name)), exist_ok=True)
                 open(os.path.join(ind, name), "w").write(body)
             kw = dict(r["kwargs"]); pwd = kw.pop("anon_pwd"); ip = kw.pop("anon_ip")
+            if ip:
+                kw["dumpfile"] = os.path.join(d, "map.txt")
             anonymize_files(ind, outd, pwd, ip, **kw)
             res = {}
+            if ip and os.path.exists(os.path.join(d, "map.txt")):
+                res["<the dumped IP map>"] = open(os.path.join(d, "map.txt")).read()
             for root, _, fs in os.walk(outd):
                 for f in fs:
                     p = os.path.join(root, f)
@@ -315,7 +319,8 @@ def hashseed_scope(res, pid, rng, tier):
     if pid == "C13":
         files = {}
         for k, name in enumerate(["a.cfg", "b.cfg", "sub/c.cfg", "sub/d.cfg", "z/e.cfg", "f.cfg"]):
-            files[name] = "hostname r%d\npassword pw%dxyz\nsnmp-server community comm%dqq ro\nip address 10.%d.2.3 255.255.255.0\n" % (k, k, k, k)
+            files[name] = ("hostname r%d\npassword pw%dxyz\nsnmp-server community comm%dqq ro\nip address 10.%d.2.3 255.255.255.0\n" % (k, k, k, k)
+                           + "".join("ntp server %d.%d.7.9\n neighbor 2001:db8:%x::1 remote-as 1\n" % (20 + 3 * j, k + j, 16 * j + k) for j in range(8)))
         reqs.append({"kwargs": dict(anon_pwd=True, anon_ip=True, salt="dirsalt"), "files": files, "text": "", "before": []})
     base = [dict(r, before=[]) for r in reqs]
     ref, err = run_in_process(base, 0)
@@ -433,6 +438,33 @@ def as_scope(res, pid, rng, tier):
                 plans.append((cfg, nums, ln, "ok " + cps(o.getvalue()) + " -"))
             except Exception as e:  # noqa
                 plans.append((cfg, nums, ln, "err " + exc_name(e)))
+    # a line that the secret stage scrubs from a keyword onward: a listed number in front of the keyword is still replaced
+    for nums_ in (["65001"], ["12", "123", "65001"]):
+        salt_ = SALTS[(res.seed + 1) % len(SALTS)]
+        for ln in ("router ospf %s area 0 interface Gi0/0/0/0 message-digest-key 1 md5 encrypted 13061E010803\n" % nums_[-1],
+                   "as %s peer x key-string 7 0822455D0A16\n" % nums_[0], "description %s cable shared-secret 7 0822455D0A16\n" % nums_[-1]):
+            try:
+                o_ = anon_text(fa.FaCfg(salt=salt_, pwd=True, asn=nums_), ln)
+            except Exception as e:  # noqa
+                fails.append({"kind": "AS-number anonymization raised", "line": ln, "exc": repr(e)})
+                continue
+            res.evaluations += 1
+            n_ = ln.split()[2] if ln.startswith("router") else ln.split()[1]
+            lo_, hi_ = block_of(int(n_))
+            want_ = str(int(hashlib.md5((salt_ + n_).encode()).hexdigest(), 16) % (hi_ - lo_) + lo_)
+            if not o_.startswith(ln[:ln.index(n_)] + want_ + " "):
+                fails.append({"kind": "a listed standalone number in front of a scrubbed secret is not replaced by the keyed value", "salt": salt_,
+                              "as_numbers": nums_, "line": ln, "output": o_, "keyed_value": want_})
+    # command line: AS number 0 (also written 00) is a listed number like any other
+    from .ip_checks import run_cli
+    for lst in ("0,65001", "0", "00,7"):
+        body_ = "as-path 0 65001 00 7\nrouter bgp 0\n"
+        st_, o_, _ = run_cli(["-s", "cs", "-n", lst], {"a.cfg": body_})
+        res.evaluations += 1
+        api_ = anon_text(fa.FaCfg(salt="cs", asn=lst.split(",")), body_)
+        if st_ != "ok" or o_.get("a.cfg") != api_:
+            fails.append({"kind": "command line: the listed AS numbers are not treated as by the library with the same list", "argv": ["-s", "cs", "-n", lst],
+                          "status": st_, "output": o_.get("a.cfg"), "library": api_})
     dis = sess.finish(post=fa.model_out)
     res.evaluations += len(sess.lines)
     res.traces += rounds
@@ -586,7 +618,19 @@ def structure_scope(res, pid, rng, tier):
                     pre_ = (f_ % nm).format("")
                     lines.insert(len(lines) - 1, pre_ + s_ + "\n")
                     keep_tokens.append(pre_)
+        if cfg.pwd and not cfg.words and not cfg.asn and not cfg.ip and not cfg.undo:
+            from .jun_checks import ref_encrypt as _re9
+            # a `$9$` secret whose plaintext is an ordinary keyword, then ordinary lines with that keyword after a password keyword
+            lines.insert(len(lines) - 1, 'secret "%s"\n' % _re9("chain", "Q"))
+            lines.insert(len(lines) - 1, 'secret "%s"\n' % _re9("encryption", "B"))
+            for pl in ("key chain ISIS-KEYS\n", "password encryption aes\n", "ip ssh server algorithm hostkey ssh-rsa rsa-sha2-256\n",
+                       "ip ssh server algorithm publickey ssh-rsa ecdsa-sha2-nistp256\n", "ssh-dsa is deprecated\n"):
+                plain.append(pl)
         if cfg.ip:
+            # an interface name after a zone index is ordinary text
+            for zl in ("ipv6 route ::/0 fe80::1%eth0\n", " neighbor fe80::a:b%Vlan10 remote-as 64999\n"):
+                lines.insert(len(lines) - 1, zl)
+                keep_tokens.append(None)
             for m in ("255.255.252.000", "000.000.003.255", "0.0.0.255", "255.255.255.0", "255.000.000.000"):
                 plain.append(" ip address-mask %s secondary\n" % m)
             if cfg.nets:
@@ -613,7 +657,11 @@ def structure_scope(res, pid, rng, tier):
         if len(outs) != len(ins):
             fails.append({"kind": "number of lines changed", "cfg": cfg.describe(), "lines_in": len(ins), "lines_out": len(outs)})
             continue
-        for kt in keep_tokens:
+        if cfg.ip:
+            for o_ in outs:
+                if ("route ::/0" in o_ or "remote-as 64999" in o_) and not ("%eth0" in o_ or "%Vlan10" in o_):
+                    fails.append({"kind": "a token that is not a sensitive item changed (interface name after a zone index)", "cfg": cfg.describe(), "output": o_})
+        for kt in [k_ for k_ in keep_tokens if k_ is not None]:
             if not any(o.startswith(kt) for o in outs):
                 fails.append({"kind": "a token that is not a sensitive item changed (text equal to the secret elsewhere on the line)",
                               "cfg": cfg.describe(), "expected_line_start": kt, "outputs": [o for o in outs if "link" in o][:4]})
@@ -791,6 +839,33 @@ def total_scope(res, pid, rng, tier):
                 continue
             if o.getvalue().count("\n") != 1:
                 fails.append({"kind": "one line in did not give one line out", "salt": hs, "line": ln, "output": o.getvalue()})
+    # text in front of the secret with backslashes that are no template escapes; AS numbers listed with leading zeros
+    ob_ = fa.FaCfg(salt="s", pwd=True).build()
+    for nm in ("CORP\\jdoe", "a\\q", "LAB\\x41", "D\\", "\\\\srv\\share", "x\\g<prefix>", "k\\9"):
+        for f_ in ("username %s secret 5 %s", "snmp-server host 10.0.0.1 vrf %s informs %s", "ppp %s password 0 %s", "tacacs-server host %s key 7 %s"):
+            ln = f_ % (nm, L.gen_secret(rng, "md5") if "secret 5" in f_ else L.gen_secret(rng, "type7") if "key 7" in f_ else "Xy" + L.gen_secret(rng, "text"))
+            o = io.StringIO()
+            res.evaluations += 1
+            try:
+                ob_.anonymize_io(io.StringIO(ln + "\n"), o)
+            except Exception as e:  # noqa
+                fails.append({"kind": "processing a line raised %s" % type(e).__name__, "line": ln, "exc": repr(e)[:300]})
+                continue
+            if o.getvalue().count("\n") != 1:
+                fails.append({"kind": "one line in did not give one line out", "line": ln, "output": o.getvalue()})
+    for asl in (["065002", "007"], ["0", "00"], ["65000", "0065001"]):
+        try:
+            oba = fa.FaCfg(salt="s", asn=asl).build()
+        except Exception as e:  # noqa
+            fails.append({"kind": "constructor raised on a valid option set", "as_numbers": asl, "exc": repr(e)})
+            continue
+        for ln in ["router bgp %s" % asl[0], " neighbor 10.0.0.1 remote-as %s" % asl[-1], "as-path %s %s 0 7 65001" % (asl[0], asl[-1])]:
+            o = io.StringIO()
+            res.evaluations += 1
+            try:
+                oba.anonymize_io(io.StringIO(ln + "\n"), o)
+            except Exception as e:  # noqa
+                fails.append({"kind": "processing a line raised %s" % type(e).__name__, "as_numbers": asl, "line": ln, "exc": repr(e)[:300]})
     # very long runs of enclosing characters
     for k in (1200, 3000):
         for ln in ['password ' + '"' * k + 'x' + '"' * k, "secret " + "[" * k + "y" + "]" * k, "key " + "'" * k]:
@@ -1022,6 +1097,19 @@ def determinism_scope(res, pid, rng, tier):
                               "bytes_existing_path": len(x), "bytes_fresh_path": len(y), "tail_existing_path": x[-80:].decode("utf-8", "replace")})
     finally:
         shutil.rmtree(d, ignore_errors=True)
+    # command line: an explicit salt is used whatever the feature subset (also with only -n and / or -p)
+    from .ip_checks import run_cli
+    from .jun_checks import ref_encrypt as _re9
+    ctext = 'router bgp 65001\n neighbor 10.0.0.1 remote-as 64999\nsecret "%s"\nusername x password foo%d\n' % (_re9("cliPlain", "Q"), rng.randint(0, 999))
+    for flags in (["-n", "65001,64999"], ["-p"], ["-p", "-n", "65001"]):
+        runs = [run_cli(["-s", "Tsalt"] + flags, {"a.cfg": ctext}) for _ in range(2)]
+        res.evaluations += 2
+        api = _run(FileAnonymizer(anon_pwd="-p" in flags, anon_ip=False, salt="Tsalt", as_numbers=["65001", "64999"] if flags[-1] == "65001,64999"
+                                  else (["65001"] if "-n" in flags else None)), ctext)
+        outs_ = [r_[1].get("a.cfg") for r_ in runs]
+        if outs_[0] != outs_[1] or outs_[0] != api:
+            fails.append({"kind": "command line with an explicit salt: two runs differ, or differ from the library run with that salt",
+                          "argv": ["-s", "Tsalt"] + flags, "run1": outs_[0], "run2": outs_[1], "library": api})
     # an explicit empty salt is a salt
     e1 = _run(FileAnonymizer(anon_pwd=False, anon_ip=True, salt=""), text)
     e2 = _run(FileAnonymizer(anon_pwd=False, anon_ip=True, salt=""), text)
